@@ -699,14 +699,56 @@ fn gen(seed: u64, n: usize, path: &str, tier: &str) -> std::io::Result<()> {
     let mut r = Rng::new(seed);
     let mut f = std::io::BufWriter::new(std::fs::File::create(path)?);
     // 1. exhaustive small scope: every pair of duplicate-free sequences
-    let (nk, ml) = if tier == "thorough" { (6, 5) } else { (6, 5) };
-    let seqs = all_seqs(nk, ml);
+    let seqs = all_seqs(6, 5);
     for (i, from) in seqs.iter().enumerate() {
         let (p, q, b) = SHAPES[i % SHAPES.len()];
         let tf = if i % 16 == 5 { "transf" } else { "trans" };
         writeln!(f, "case x{i}.exhaustive.{}", if tf == "transf" { "for" } else { "keyed" })?;
         for to in &seqs {
             writeln!(f, "{tf} {p} {q} {b} {} / {}", show(from), show(to))?;
+        }
+    }
+    // 1b. thorough tier: every pair of sequences of length <= 6 over 7 keys (8660^2 = 74 995 600 transitions)
+    // is run HERE on the real code (all cores) and judged by the implementation-side oracle; every
+    // transition the oracle rejects and every 64th other one goes into the ops file (so the model sees them)
+    if tier == "thorough" {
+        let seqs7 = all_seqs(7, 6);
+        let nthreads = std::thread::available_parallelism().map(|n| n.get()).unwrap_or(1).min(16).max(1);
+        let next = std::sync::atomic::AtomicUsize::new(0);
+        let results: Vec<std::sync::Mutex<Vec<String>>> = (0..seqs7.len()).map(|_| Default::default()).collect();
+        quiet_panics();
+        std::thread::scope(|sc| {
+            for _ in 0..nthreads {
+                sc.spawn(|| loop {
+                    let i = next.fetch_add(1, std::sync::atomic::Ordering::Relaxed);
+                    if i >= seqs7.len() {
+                        break;
+                    }
+                    let (p, q, b) = SHAPES[i % SHAPES.len()];
+                    let tf = if i % 64 == 5 { "transf" } else { "trans" };
+                    let mut keep = vec![];
+                    let mut sess: Option<Session> = None;
+                    for (j, to) in seqs7.iter().enumerate() {
+                        let line = format!("{tf} {p} {q} {b} {} / {}", show(&seqs7[i]), show(to));
+                        let out = op(&mut sess, &line);
+                        if !out.ends_with("## ok") || (i * seqs7.len() + j) % 64 == 0 {
+                            keep.push(line);
+                        }
+                    }
+                    drop(sess);
+                    *results[i].lock().unwrap() = keep;
+                });
+            }
+        });
+        for (i, r) in results.into_iter().enumerate() {
+            let lines = r.into_inner().unwrap();
+            if lines.is_empty() {
+                continue;
+            }
+            writeln!(f, "case y{i}.exhaustive7.{}", if i % 64 == 5 { "for" } else { "keyed" })?;
+            for l in lines {
+                writeln!(f, "{l}")?;
+            }
         }
     }
     // 2. random histories
